@@ -689,6 +689,26 @@ def r_leaf_loop(m, rep, R):
                       'leaf push %s is %s, expected %s' % (fld, canon(got_), canon(spec)))
 
 
+def _update_delegate(m):
+    """name of the cell method that chart::update hands its decision to (`return (*this)(row, column).NAME(item,
+    nbest_)`), judged by r_chart like update itself; None when update decides on its own"""
+    try:
+        upd = cxx.method(m.decls['chart'], 'update')
+        pr = [p.name for p in cxx.params_of(upd)]
+        P = Paths(upd)
+    except Exception:
+        return None
+    if len(pr) == 3 and len(P.paths) == 1 and P.paths[0][2] is not None:
+        r_ = P.paths[0][2]
+        sel = {canon(IDX(('this',), V(pr[0]), V(pr[1]))), canon(IDX(('deref', ('this',)), V(pr[0]), V(pr[1])))}
+        if r_[0] == 'mcall' and canon(r_[1]) in sel and len(r_[3]) == 2 and r_[3][0] == V(pr[2]):
+            return r_[2]
+    return None
+
+
+_CELL_STORES = ('emplace', 'insert', 'push_back', 'emplace_back', 'push_front')
+
+
 def r_chart(m, rep, R):
     """chart::update is first-pop-wins per (span, category) unless n-best; cells are registered by span."""
     ch = m.decls['chart']
@@ -950,7 +970,7 @@ def r_search_loop(m, rep, R):
         if getattr(m, 'goal_is_cell', False):
             # finished parses collected in a bare cell: goal.emplace(top) / goal.insert(top, keep) -- possibly under the
             # chart's own rule "keep every derivation in n-best mode, else the first of a category"
-            collected = [c for c in calls if c[0] == 'mcall' and c[1] == V(m.goal) and c[2] in ('emplace', 'insert', 'push_back', 'emplace_back', 'push_front')
+            collected = [c for c in calls if c[0] == 'mcall' and c[1] == V(m.goal) and c[2] in _CELL_STORES + ((_update_delegate(m),) if len(c[3]) == 2 else ())
                          and c[3] and c[3][0] == topv]
             hit = len(collected) == 1
         else:
@@ -1449,7 +1469,7 @@ def r_nbest(m, rep, R):
             # insertion is conditioned / parameterised by nbest > 1 (and the first-of-a-category rule otherwise)
             keep = canon(('bin', '>', M(cfg, 'nbest'), LIT(1)))
             ins = [term(n, env) for n in m.main_loop.find('CXXMemberCallExpr')]
-            ins = [t for t in ins if t[0] == 'mcall' and t[1] == V(m.goal) and t[2] in ('emplace', 'insert', 'push_back', 'emplace_back', 'push_front')]
+            ins = [t for t in ins if t[0] == 'mcall' and t[1] == V(m.goal) and t[2] in _CELL_STORES + ((_update_delegate(m),) if len(t[3]) == 2 else ())]
             okc = len(ins) == 1
             if okc and len(ins[0][3]) == 2:
                 okc = canon(ins[0][3][1]) == keep
